@@ -962,6 +962,7 @@ class Layout:
     fixed: bool = False
     cont_char: str = "&"
     comment_flag: str = "C"
+    end_style: str = "full"  # full | kw (end subroutine) | bare (end) | joined (endsubroutine x, enddo)
 
     def key(self):
         return tuple(sorted(self.__dict__.items()))
@@ -981,6 +982,7 @@ layout_st = st.builds(
     lead_amp=st.booleans(),
     join_every=st.sampled_from([0, 0, 2, 3]),
     space_end=st.sampled_from([" ", " ", "  "]),
+    end_style=st.sampled_from(["full", "full", "kw", "bare", "joined"]),
 )
 
 PLAIN = Layout()
@@ -1052,7 +1054,16 @@ def render(prog: Program, layout: Layout = PLAIN, suffix=None) -> Rendered:
                 lines.append(" " * (layout.indent * s.depth) + "! note: ordinary comment " + str(nst))
             # pieces: list of (text, ref|None)
             pieces = []
-            for t in s.toks:
+            toks = s.toks
+            if s.kind.startswith("close-") and layout.end_style != "full" and toks and isinstance(toks[0], str) and toks[0].startswith("end "):
+                style = layout.end_style
+                if style == "bare" and s.kind in ("close-unit", "close-proc"):
+                    toks = ["end"]
+                elif style == "kw" or (style == "bare"):
+                    toks = [toks[0].rstrip()] if s.kind != "close-construct" else toks
+                elif style == "joined":
+                    toks = ["end" + toks[0][4:]] + list(toks[1:])
+            for t in toks:
                 if isinstance(t, Ref):
                     pieces.append((_case_id(t.spelling(), layout), t))
                 else:
